@@ -296,8 +296,43 @@ def _task_c(args):
     return n, vios, sample, 0
 
 
+def _task_e(args):
+    """a receiver that missed the end of the previous message on the stream (kept only its first j frames): the next
+    message, fed completely and in order, must still come out once, at its last frame, with its own payload"""
+    fmt, las = args
+    bl = boundary_lengths()
+    vios, n = [], 0
+    sample = None
+    for LA in las:
+        nA = wire.n_frames(LA)
+        for j in sorted({1, 2, nA // 2, nA - 1}):
+            if not 1 <= j < nA:
+                continue
+            for LB in bl:
+                enc, dec = NMEA2000Encoder(), NMEA2000Decoder()
+                msg = NMEA2000Message(PGN=130816, id=CARRIERS[130816][0], priority=3, source=5, destination=255)
+                enc._call_encode_function = lambda m, _p=pattern("seeded", LA, 3): _p
+                try:
+                    pk = encode(enc, fmt, msg)
+                    early = [feed(dec, fmt, q) for q in pk[:j]]
+                except Exception:  # noqa: BLE001
+                    continue                       # the first message itself fails: parts (a)/(b) report that
+                if any(m is not None for m in early):
+                    continue
+                v, _ = check_message(enc, dec, fmt, 130816, pattern("asc", LB), None,
+                                     f"{fmt} after the first {j} of {nA} frames of a {LA}-byte message, next message L={LB}")
+                n += 1
+                for kind, facts, detail in v:
+                    if len(vios) < 40:
+                        vios.append({"kind": kind, "facts": dict(facts, format=fmt, part="e", mechanism="stale_partial_message"), "signature": f"e:{kind}:{fmt}",
+                                     "detail": detail, "case": {"part": "e", "format": fmt, "LA": LA, "j": j, "LB": LB}})
+                if sample is None and not v:
+                    sample = {"part": "e", "format": fmt, "truncated_message": LA, "frames_kept": j, "next_message": LB}
+    return n, vios, sample, 0
+
+
 def _dispatch(t):
-    return {"a": _task_a, "b": _task_b, "chain": _task_chain, "c": _task_c, "d": _task_d}[t[0]](t[1])
+    return {"a": _task_a, "b": _task_b, "chain": _task_chain, "c": _task_c, "d": _task_d, "e": _task_e}[t[0]](t[1])
 
 
 def run(ctx):
@@ -312,6 +347,9 @@ def run(ctx):
         for i in range(0, len(bl), 4 if ctx.thorough else 14):
             tasks.append(("b", (fmt, bl[i:i + (4 if ctx.thorough else 14)], depth)))
         tasks.append(("chain", (fmt,)))
+        multi = [L for L in boundary_lengths() if wire.n_frames(L) >= 2]
+        for i in range(0, len(multi), 6):
+            tasks.append(("e", (fmt, multi[i:i + 6])))
         if ctx.thorough:
             pres = ["".join(p) for p in itertools.product("AB", repeat=7)]
             for i in range(0, len(pres), 4):
@@ -329,7 +367,7 @@ def run(ctx):
         tasks.append(("c", (fast_enc[i:i + 12],)))
     results = common.pmap(_dispatch, tasks)
     vios, samples = [], []
-    counts = {"a": 0, "b": 0, "chain": 0, "c": 0, "d": 0}
+    counts = {"a": 0, "b": 0, "chain": 0, "c": 0, "d": 0, "e": 0}
     seqs = 0
     for t, (n, v, s, sq) in zip(tasks, results):
         counts[t[0]] += n
@@ -343,10 +381,10 @@ def run(ctx):
         "distinct_nontrivial": counts["a"] - 3 * 8 * 4 * 7, "distinct_outcomes": seqs,
         "rule": "(a) one case per (format, length 0..223, counter state 0..7, byte pattern); non-trivial = multi-frame (length > 6). "
                 "(b) messages of all ordered tuples of boundary lengths on one encoder/decoder pair. (c) encodable fast definitions x "
-                "4 bases x 3 formats. (d) every sequence of messages over 2-3 streams that share one encoder counter.  distinct_outcomes = distinct sequence counters observed in one task",
+                "4 bases x 3 formats. (d) every sequence of messages over 2-3 streams that share one encoder counter. (e) every boundary length after the first 1, 2, n/2, n-1 frames of every multi-frame boundary length.  distinct_outcomes = distinct sequence counters observed in one task",
         "samples": samples, "per_part": counts, "fast_encodable_definitions": len(fast_enc),
         "bound_completed": f"(a) complete; (b) ordered {'triples' if ctx.thorough else 'pairs'} over {len(boundary_lengths())} boundary lengths + 17-message chain; (c) complete; "
-                           f"(d) all stream sequences over 2 streams of {'17 messages (and over 3 streams of 10 with the third in the first four)' if ctx.thorough else '11 messages'} on one encoder/decoder pair",
+                           f"(d) all stream sequences over 2 streams of {'17 messages (and over 3 streams of 10 with the third in the first four)' if ctx.thorough else '11 messages'} on one encoder/decoder pair; (e) complete over the boundary lengths",
         "exhaustive": True,
     }
     return {"coverage": cov, "violations": vios,
@@ -385,5 +423,8 @@ def replay(ctx, rep):
     if c["part"] == "chain":
         n, v, s, q = _task_chain((c["format"],))
         return v
+    if c["part"] == "e":
+        n, v, s, q = _task_e((c["format"], [c["LA"]]))
+        return [x for x in v if x["case"]["j"] == c["j"] and x["case"]["LB"] == c["LB"]][:1] or v[:1]
     n, v, s, q = _task_c(([refdb.db().by_id[(c["pgn"], c["definition"])].idx],))
     return v
